@@ -624,9 +624,10 @@ impl PacketReceiver for IceConn {
                                 *probation_guard = None; // drop state
                                 drop(probation_guard);
 
-                                if win_addr != current_remote {
-                                    *self.remote_addr.write() = win_addr;
-                                }
+                                // `current_remote` was read before the provisional move
+                                // above may have pointed remote_addr at this packet's
+                                // source, so it cannot be used to skip the write.
+                                *self.remote_addr.write() = win_addr;
                                 self.rtp_latched.store(true, Ordering::Relaxed);
                                 trace!(
                                     "IceConn: RTP latched to {} after probation \
